@@ -116,6 +116,8 @@ impl TransportVisitor for V {
             menu.push((2, 0, 0, 0)); // connect
             menu.push((3, 0, 0, 0)); // send
             menu.push((4, 0, 0, 0)); // recv
+            menu.push((5, 0, 0, 0)); // shutdown
+            menu.push((6, 0, 0, 0)); // force_close
             for oi in [0usize, 1, 2, 3, 4, 9, 10] {
                 menu.push((9, 0, 0, oi)); // REQUEST, RESPONSE, RST, SHUTDOWN, RW, SHUTDOWN with one hint only
             }
